@@ -681,6 +681,26 @@ def _const_array_elems(path, F, like):
     return out
 
 
+def _guard_continues(body):
+    """`{ a; if c { continue; } rest }` as a loop body is `{ a; if c {} else { rest } }`: the `continue` guards of the top level of the
+    body (the usual way to skip an element) are turned into structure so that the body can be written out per element."""
+    b0 = _strip(body)
+    if b0.get("k") != "Block" or b0.get("label"):
+        return body
+    stmts = list(b0.get("stmts") or [])
+    for i, st in enumerate(stmts):
+        e = _strip(st["e"]) if st.get("k") == "SSemi" else _strip(st)
+        if e.get("k") == "If" and e.get("else") is None:
+            ts, tt = _as_stmts(e["then"])
+            only = [x for x in ts + ([tt] if tt is not None else [])]
+            if len(only) == 1 and _strip(only[0]["e"] if only[0].get("k") == "SSemi" else only[0]).get("k") == "Continue" \
+                    and not _strip(only[0]["e"] if only[0].get("k") == "SSemi" else only[0]).get("label"):
+                rest = _guard_continues(_block(stmts[i + 1:], b0.get("expr"), b0, "()"))
+                node = dict(e, then=_block([], None, e, "()"), **{"else": rest})
+                return dict(b0, stmts=stmts[:i] + [node], expr=None)
+    return body
+
+
 def unroll_literal_loops(fn_hir, limit=16, F=None):
     """Deep copy of fn_hir in which every `for PAT in ARRAY { body }` whose ARRAY is an array literal (directly, or a
     single-assignment local initialised with one) of at most `limit` elements and whose body contains no break/continue
@@ -743,6 +763,7 @@ def unroll_literal_loops(fn_hir, limit=16, F=None):
             if len(some) != 1:
                 return None
             pat, body = payload(some[0]["pat"]), some[0]["body"]
+            body = _guard_continues(body)
             for c, anc_ in hir.walk(body):
                 nested = any(a_.get("k") == "Loop" for a_ in anc_)
                 if not nested and (c.get("k") == "Continue" or (c.get("k") == "Break" and "ForLoop" not in str(c.get("mac", "")))):
@@ -1340,8 +1361,122 @@ def canon_locals(data):
     return data
 
 
+try:
+    KNOWN_ACCESSORS = json.load(open(os.path.join(HERE, "known_accessors.json")))
+except Exception:
+    KNOWN_ACCESSORS = {}
+
+
+def canon_rights(data):
+    """The twelve castling accessors of GameState (`white_king_castling()`, `set_.._true/false()`) are anchors of many rules.  When
+    some of them no longer exist (one generic `can_castle(right)` / `revoke(right)` / `grant(right)` took their place), the bit
+    operations the expanded replacements perform on `GameState.bitfield` are read back as calls of the reference accessor of
+    that bit: `(s.bitfield & M) != 0` with M the literal one-bit mask of a right is `s.<right>_castling()`, `s.bitfield &= !M` is
+    `s.set_<right>_castling_false()`, `s.bitfield |= M` is `..._true()`.  The mask is evaluated (constant folding of whatever
+    computes it); which bit is which right is the reference layout, so an accessor API that moves a right to another bit shows
+    up as the wrong right being read or written.  The missing accessors are then added back as they are on the reference tree."""
+    acc = KNOWN_ACCESSORS.get("fns") or {}
+    bits = KNOWN_ACCESSORS.get("bits") or {}
+    if not acc or not bits:
+        return data
+    fns = {f["path"]: f for f in data["fns"]}
+    missing = [p_ for p_ in acc if p_ not in fns]
+    if not missing:
+        return data
+    by_mask = {1 << b: k for k, b in bits.items()}
+    GS = "chess::gamestate::GameState::"
+
+    class _F:
+        pass
+    shim = _F()
+    shim.fns = fns
+    shim.consts = {c["path"]: c for c in data["consts"]}
+    shim.adts = {a["path"]: a for a in data.get("adts", [])}
+    shim.d = data
+
+    def const_bytes(path, _c=shim.consts):
+        v = (_c[path].get("value") or {})
+        h = v.get("bytes") or v.get("ptr_to_bytes")
+        return bytes.fromhex(h)
+    shim.const_bytes = const_bytes
+    shim.const = lambda path: shim.consts[path]
+    shim.const_int = lambda path: int.from_bytes(const_bytes(path), "little", signed=str(shim.consts[path]["ty"]).startswith("i"))
+    n_rw = [0]
+
+    def is_bitfield(n):
+        n0 = _strip(n)
+        return n0.get("k") == "Field" and n0.get("name") == "bitfield" and "GameState" in str(_strip(n0["e"]).get("ty", ""))
+
+    def call(name, recv, ty, like):
+        path = GS + name
+        return {"k": "MethodCall", "name": name, "callee": path, "resolved": path, "recv": recv, "args": [], "ty": ty, "sp": like.get("sp"),
+                "canon": "rights"}
+
+    def rewrite_fn(h):
+        sym = hir.Sym(hir.Env(h, None), None)
+
+        def value(e):
+            try:
+                v = hir.fold(hir.resolve_consts(sym(e), shim), {})
+            except Exception:
+                return None
+            return hir.sym_int(v)
+
+        def rw(n):
+            if isinstance(n, list):
+                for i, x in enumerate(n):
+                    r = rw(x)
+                    if r is not None:
+                        n[i] = r
+                return None
+            if not isinstance(n, dict):
+                return None
+            for key, v in list(n.items()):
+                if isinstance(v, (dict, list)) and key not in ("sp", "osp"):
+                    r = rw(v)
+                    if r is not None:
+                        n[key] = r
+            k = n.get("k")
+            if k == "AssignOp" and n.get("op") in ("&=", "|=") and is_bitfield(n["l"]):
+                recv = _strip(n["l"])["e"]
+                v = value(n["r"])
+                if v is None:
+                    return None
+                if n["op"] == "|=" and v in by_mask:
+                    n_rw[0] += 1
+                    return call("set_%s_castling_true" % by_mask[v], recv, "()", n)
+                if n["op"] == "&=" and ((~v) & 0xFF) in by_mask:
+                    n_rw[0] += 1
+                    return call("set_%s_castling_false" % by_mask[(~v) & 0xFF], recv, "()", n)
+                return None
+            if k == "Binary" and n.get("op") in ("!=", "=="):
+                for a_, b_ in ((n["l"], n["r"]), (n["r"], n["l"])):
+                    a0 = _strip(a_)
+                    if a0.get("k") == "Binary" and a0.get("op") == "&" and value(b_) == 0:
+                        for x_, m_ in ((a0["l"], a0["r"]), (a0["r"], a0["l"])):
+                            if is_bitfield(x_) and value(m_) in by_mask:
+                                n_rw[0] += 1
+                                g = call("%s_castling" % by_mask[value(m_)], _strip(x_)["e"], "bool", n)
+                                return g if n["op"] == "!=" else {"k": "Unary", "op": "Not", "e": g, "ty": "bool", "sp": n.get("sp")}
+            return None
+        r = rw(h["body"])
+        if r is not None:
+            h["body"] = r
+    for f in data["fns"]:
+        if f.get("hir") and f["path"] not in acc:
+            rewrite_fn(f["hir"])
+    for p_ in missing:
+        data["fns"].append(copy.deepcopy(acc[p_]))
+    data.setdefault("inline_notes", []).append(
+        "castling accessors %s are gone: %d bit operations on GameState.bitfield read as calls of the reference accessor of that bit; "
+        "the accessors themselves analysed as on the reference tree" % (sorted(x.rsplit("::", 1)[-1] for x in missing), n_rw[0]))
+    return data
+
+
 def apply(data, known=None):
     data = _apply(data, known)
+    if KNOWN_ACCESSORS and not os.environ.get("VERIF_NO_CANON_RIGHTS"):
+        data = canon_rights(data)
     if KNOWN_LOCALS and not os.environ.get("VERIF_NO_CANON_LOCALS"):
         data = canon_locals(data)
     return data
